@@ -35,7 +35,7 @@ def wide_phase(chk):
     primary-key index, the secondary index and the scan after every step (TLC -simulate walks)."""
     import widetable
     thorough = chk.tier == "thorough"
-    hists = widetable.walks(chk, 60 if thorough else 5, 20 if thorough else 12, cap=1500 if thorough else 150)
+    hists = widetable.walks(chk, 120 if thorough else 24, 20 if thorough else 12, cap=1500 if thorough else 150)
     outs = widetable.execute(hists)
     probs, st = widetable.judge(hists, outs)
     sigs = {}
